@@ -8,7 +8,7 @@
 EXTENDS GraphOpt, Json, Randomization
 
 CONSTANTS N,        \* graphs have 1..N nodes
-          Wraps,    \* subset of {"list", "call"}: argument lists may be wrapped in a list / nested task
+          Wraps,    \* subset of {"list", "call", "dict"}: the arguments may be wrapped in a list / nested task / dict
           Last      \* 0: every option for node N; k > 0: a (seeded) random k-subset of the options for node N
 
 VARIABLES g, out
@@ -24,6 +24,7 @@ ArgSeqs(i) == ({<<>>} \cup {<<a>> : a \in Atoms(i)}
 Wrapped(i, s) == {s}
                  \cup (IF "list" \in Wraps /\ s # <<>> THEN {<<ListA(s)>>} ELSE {})
                  \cup (IF "call" \in Wraps /\ s # <<>> THEN {<<CallA(Gname[i], s)>>} ELSE {})
+                 \cup (IF "dict" \in Wraps /\ s # <<>> THEN {<<DictA(SubSeq(<<"p", "q">>, 1, Len(s)), s)>>} ELSE {})
 Options(i) == {DataN(Lit(10 + i))}
               \cup {AliasN(K(j)) : j \in 1..(i - 1)}
               \cup {TaskN(Fname[i], w) : w \in UNION {Wrapped(i, s) : s \in ArgSeqs(i)}}
